@@ -1784,6 +1784,10 @@ func (p *printer) spec(spec ast.Spec, n int, doIndent bool) {
 			}
 			p.expr(s.Type)
 		}
+		if s.Tag != nil { // classfile field tag
+			p.print(blank)
+			p.expr(s.Tag)
+		}
 		if s.Values != nil {
 			p.print(blank, token.ASSIGN, blank)
 			p.exprList(token.NoPos, s.Values, 1, 0, token.NoPos, false)
